@@ -87,7 +87,12 @@ impl TcpStream {
 
             let syn = Protocol::Tcp(Segment::Syn(Syn { ack }));
             if !is_same(pair.local, pair.remote) {
-                world.send_message(pair.local, pair.remote, syn)?;
+                if let Err(e) = world.send_message(pair.local, pair.remote, syn) {
+                    // Nobody owns the destination address: release the socket
+                    // (and its ephemeral port) registered above.
+                    world.current_host_mut().tcp.reset_stream(pair);
+                    return Err(e);
+                }
             } else {
                 send_loopback(pair.local, pair.remote, syn);
             };
@@ -95,9 +100,17 @@ impl TcpStream {
             Ok::<_, Error>((pair, rx, bidi))
         })?;
 
+        // Until the handshake completes the socket registered above belongs
+        // to this future: release it if the connect is refused or the future
+        // is dropped (e.g. by a timeout), otherwise the host leaks a stream
+        // entry and its ephemeral port for every failed connect.
+        let mut pending = PendingConnect { pair, armed: true };
+
         syn_ack.await.map_err(|_| {
             io::Error::new(io::ErrorKind::ConnectionRefused, pair.remote.to_string())
         })?;
+
+        pending.armed = false;
 
         tracing::trace!(target: TRACING_TARGET, src = ?pair.remote, dst = ?pair.local, protocol = %"TCP SYN-ACK", "Recv");
 
@@ -191,6 +204,20 @@ impl TcpStream {
     /// available.
     pub fn poll_peek(&mut self, cx: &mut Context<'_>, buf: &mut ReadBuf) -> Poll<Result<usize>> {
         self.read_half.poll_peek(cx, buf)
+    }
+}
+
+/// Removes the socket of a connect that never completed.
+struct PendingConnect {
+    pair: SocketPair,
+    armed: bool,
+}
+
+impl Drop for PendingConnect {
+    fn drop(&mut self) {
+        if self.armed {
+            World::current_if_set(|world| world.current_host_mut().tcp.reset_stream(self.pair));
+        }
     }
 }
 
